@@ -65,6 +65,8 @@ def main():
         if a.group:
             if g['name'] in a.group:
                 sel.append(g)
+        elif g.get('tier', 'quick') == 'off':
+            continue
         elif a.tier == 'thorough' or g.get('tier', 'quick') == 'quick':
             sel.append(g)
     if not sel:
